@@ -144,6 +144,20 @@ pub fn run_c02(ctx: &Ctx) -> i32 {
             });
         }
     }
+    // write sessions with several write / seek / flush calls on one handle: both backends against
+    // the same cursor model, hence against each other (the BFS above only has whole sessions)
+    let depth = if thorough { 4 } else { 3 };
+    let mut ws = Stats { label: format!("Mem~Phys write/seek/flush scripts of depth {} on create handles, published bytes after every flush and after drop", depth), fixpoint: true, states: 1, ..Default::default() };
+    for b in [crate::handle::HB::Mem, crate::handle::HB::Phys] {
+        for prior in [None, Some(&b"abc"[..])] {
+            let (st, v) = crate::handle::writer_scripts("C02", b, prior, false, depth);
+            ws.transitions += st.steps;
+            ws.nontrivial += st.classes.len() as u64;
+            vio.extend(v);
+        }
+    }
+    println!("  [{}] steps={}", ws.label, ws.transitions);
+    stats.push(ws);
     let counts = counts_of(&stats);
     let cov = bfs_coverage(
         &stats,
